@@ -119,6 +119,11 @@ impl SimWriter {
     let armed = self.kit.writer.verif_armed();
     (armed.iter().any(|x| x.0 == "repair" && x.1 == Some(g)), armed.iter().any(|x| x.0 == "repair_frags" && x.1 == Some(g)))
   }
+  /// how many SendRepairData / SendRepairFrags timers are armed for that reader (they stack: every NACK arms one)
+  pub fn armed_counts_guid(&self, g: GUID) -> (usize, usize) {
+    let armed = self.kit.writer.verif_armed();
+    (armed.iter().filter(|x| x.0 == "repair" && x.1 == Some(g)).count(), armed.iter().filter(|x| x.0 == "repair_frags" && x.1 == Some(g)).count())
+  }
   pub fn repair_guid(&mut self, g: GUID) {
     self.kit.writer.verif_fire("repair", Some(g));
   }
